@@ -25,7 +25,7 @@ CONV_CLASS = {
     'cf1d': 'CFGrid1D', 'cf2d': 'CFGrid2D', 'shoc_simple': 'ShocSimple',
     'shoc_standard': 'ShocStandard', 'ugrid': 'UGrid',
 }
-DTYPES = ['f8', 'f4', 'i4', 'i2', 'i8', 'dt', 'td']
+DTYPES = ['f8', 'f4', 'i4', 'i2', 'i8', 'dt', 'td', 'b1']
 
 
 # ----------------------------------------------------------------------------------------
@@ -112,7 +112,9 @@ def _gen_vars(rng, kinds, max_vars, extra_pool, *, allow_perm=True, name_pool=No
         dtype = rng.choice(DTYPES)
         if dtype in ('dt', 'td') and kind is None:
             dtype = 'f8'      # a datetime variable that is not on a grid would be indistinguishable from a time coordinate
-        if dtype in ('dt', 'td'):
+        if dtype == 'b1':
+            fill, fillv = None, None      # a flag: no way of holding a missing value, must come through a clip untouched
+        elif dtype in ('dt', 'td'):
             fill, fillv = None, None      # datetime64 / timedelta64 data (e.g. time of last update): NaT is its missing value
         elif dtype.startswith('f'):
             fill = rng.choice([None, None, '_FillValue', 'missing_value'])
@@ -345,7 +347,7 @@ def gen_world(rng, *, convs=CONVS, max_n=5, max_faces=10, max_vars=5, allow_hole
             'edge_coords': has_edges and rng.random() < 0.35,
             'coords_as_vars': False,
         })
-        spec['attrs']['Conventions'] = rng.choice(['UGRID-1.0', 'CF-1.6, UGRID-1.0'])
+        spec['attrs']['Conventions'] = rng.choice(['UGRID-1.0', 'CF-1.6, UGRID-1.0', 'CF-1.6, UGRID-1.0', ['CF-1.8', 'UGRID-1.0']])
         kinds = ['face', 'node'] + (['edge'] if has_edges else [])
     spec['vars'] = _gen_vars(rng, kinds, max_vars, extra_pool, allow_perm=allow_perm,
                              min_vars=min_vars)
@@ -387,6 +389,8 @@ def add_depths(rng, spec, *, max_layers=4, n_depths=None):
                 del attrs['positive']
         depths.append({'name': name, 'dim': dim, 'values': vals, 'attrs': attrs, 'positive': positive,
                        'order': order, 'nk': nk})
+        if rng.random() < 0.2:
+            depths[-1]['aux'] = f'dz_{dim}'
     if rng.random() < 0.15 and not spec['conv'].startswith('shoc'):
         # a second coordinate describing the *same* layers in the other sign convention (e.g. height next to depth)
         d0 = depths[0]
@@ -434,7 +438,7 @@ LON_ATTRS = {
 
 def _np_dtype(code):
     return numpy.dtype({'f8': 'float64', 'f4': 'float32', 'i4': 'int32', 'i2': 'int16', 'i8': 'int64',
-                        'dt': 'datetime64[ns]', 'td': 'timedelta64[ns]'}[code])
+                        'dt': 'datetime64[ns]', 'td': 'timedelta64[ns]', 'b1': 'bool'}[code])
 
 
 def parse_time_units(units):
@@ -541,7 +545,7 @@ class World:
     def value(self, name, lin, eidx, variant=0):
         """Stored value of variable at spatial linear index and extra index tuple; None = missing."""
         v = self.vars[name]
-        if lin in v['missing']:
+        if lin in v['missing'] or v.get('all_missing'):
             return None
         if v.get('depth'):
             k = eidx[v['depth_ix']]
@@ -549,6 +553,8 @@ class World:
                 return None
         elin = int(numpy.ravel_multi_index(eidx, v['eshape'])) if v['eshape'] else 0
         raw = v['base'] + variant * v['shift'] + elin * v['gsize'] + lin
+        if v['dtype'] == 'b1':
+            return float((raw * 7 + raw // 3) % 2)      # a reproducible pattern of flags
         if v.get('pack'):
             # the stored integer is `raw`; the physical value it denotes is raw * scale_factor + add_offset (exact: binary fractions)
             return raw * v['pack']['scale'] + v['pack']['offset']
@@ -791,6 +797,10 @@ class World:
         attrs = dict(d.get('attrs', {}))
         var = xarray.Variable([d['dim']], numpy.array(d['values'], dtype='float64'), attrs=attrs)
         coords[d['name']] = var
+        if d.get('aux'):
+            # another coordinate on the layer dimension that is not a depth coordinate (layer thickness)
+            coords[d['aux']] = xarray.Variable([d['dim']], numpy.arange(1, d['nk'] + 1, dtype='float64') * 0.5,
+                                               attrs={'long_name': 'layer thickness', 'units': 'm'})
 
     def _build_cf1d(self, data_vars, coords):
         s = self.spec
